@@ -5,6 +5,18 @@ props = [json.loads(l) for l in open('/verif/properties.jsonl')]
 
 # id -> (level text, level note, technique)
 CHECKS = {
+ "C16": ("Random calibration sets over small alphabets with queries that instantiate a definition (so several candidates match), compared with a reference matcher for gates and measurements, the insertion-ordered set semantics, and the body chosen by expand_calibrations.",
+         "Parameter alphabet chosen so that equal constant value and the library's equal-after-simplification coincide; placeholder qubits are not generated (the statement is silent).",
+         "property-based testing: proptest-generated calibration sets and queries against a reference matcher"),
+ "C17": ("Random programs with gate and measure calibrations (variable qubits, %-parameters, nesting, hoisted declarations) expanded by the library and by a reference expander; bodies, hoisted regions, fix-point and the with/without-source-map variants are compared.",
+         "Programs the reference classifies as recursive are left to C18; target-name uses are modelled for CAPTURE, RAW-CAPTURE and PRAGMA LOAD-MEMORY.",
+         "property-based testing: proptest-generated programs against a reference expander (differential oracle)"),
+ "C18": ("Random and hand-shaped recursive / growing calibration sets; the reference expander classifies each program as finite, recursive or unbounded and the library must return Ok, the recursive-calibration error, or (unbounded) simply return, inside a child process with a fixed stack and a watchdog.",
+         "Termination is bounded-time evidence (20 s watchdog per case); 'unbounded' means no repeat within 120 nested expansions of the reference.",
+         "property-based testing: proptest-generated programs, reference-model classification, crash/hang containment in a child process"),
+ "C29": ("All instruction sequences up to length 3/4 over a 21-letter gate/measure alphabet and random longer ones, for every threshold 0..4, compared with a longest-chain dynamic programme.",
+         "Sequence length bounded because the implementation enumerates paths; distinct qubits per gate.",
+         "property-based testing: exhaustive small-scope enumeration + proptest random sequences against a reference DP"),
  "C22": ("Random multi-block programs over a few frames, RF, classical and control-flow instructions; every block's dependency graph is checked for acyclicity, forward-pointing edges and (when every RF instruction matches a frame) reachability from block start and to block end.",
          "Bounded program length; default instruction handler only.",
          "property-based testing: proptest-generated programs, graph-validity predicates"),
